@@ -32,6 +32,10 @@ class ESDC1AModel(ESDC2AModel):
                                 tex_name='V_{RMIN}',
                                 )
 
+        # the regulator's anti-windup limiter was built by ESDC2A with the services removed above
+        self.LA.upper = self.LA.lim.upper = self.VRU
+        self.LA.lower = self.LA.lim.lower = self.VRL
+
 
 class ESDC1A(ESDC2AData, ESDC1AModel):
     """
